@@ -12,7 +12,7 @@ EXTENDS Integers, Sequences, FiniteSets, SequencesExt
 
 CONSTANT D_EmptyCheckBeforeTrim   \* F12: `if path == ""` is tested before strings.TrimSpace, so " " indexes path[-1]
 
-WS    == {"SP", "TAB"}
+WS    == {"SP", "TAB", "NBSP", "VT"}      \* strings.TrimSpace: Unicode white space, eg U+00A0 and \v, not only blanks
 Panic == <<"<PANIC>">>
 Root  == <<"/">>
 
